@@ -61,6 +61,19 @@ def curated():
         "a": T(next=[dict(do=["j"])]), "b": T(next=[dict(do=["j"])]),
         "j": T(join=-1, next=[dict(do=["z"])]), "z": T()},
         fates={"z": A}))
+    # a task whose result is falsy (0): the conditions and publishes that read it see 0, not null
+    d0 = D.wf("falsy_result", {
+        "t1": T(next=[dict(when="res=0", pub=[["x", "res"]], do=["t2"]), dict(when="res=1", pub=[["x", "res"]], do=["t3"])]),
+        "t2": T(), "t3": T()}, vars=[["x", 5]], output=[["ox", "ctx:x"]])
+    d0["results"] = {"t1": [0]}
+    out.append(d0)
+    # a loop that forks a multiply-referenced task on every pass while the instance of the previous pass may still run
+    out.append(D.wf("loop_fork_overlap", {
+        "t0": T(next=[dict(do=["t1", "t4"])]),
+        "t1": T(next=[dict(when="succeeded", pub=[["n", "inc:n"]], do=["t2"])]),
+        "t2": T(next=[dict(when="lt:n:2", do=["t1", "t4"]), dict(when="ge:n:2", do=["t4"])]),
+        "t4": T(next=[dict(do=["t5"])]),
+        "t5": T()}, vars=[["n", 0]], output=[["on", "ctx:n"]]))
     out.append(D.wf("on_complete", {
         "t1": T(next=[dict(when="completed", pub=[["x", "c:1"]], do=["t2"])]), "t2": T()},
         vars=[["x", 0]], output=[["o", "ctx:x"]], fates={"t1": A, "t2": A}))
